@@ -29,7 +29,9 @@ FromLog(r) ==
   [h |-> r.h, prec |-> r.prec, seq |-> r.seq, params |-> r.params,
    pools |-> r.pools, fi |-> r.fi,
    queue |-> {<<r.queue[i][1], r.queue[i][2]>> : i \in DOMAIN r.queue},
-   bal |-> r.bal, supply |-> r.supply, donated |-> r.donated]
+   bal |-> r.bal, supply |-> r.supply, donated |-> r.donated,
+   wired |-> r.wired, gbal |-> r.gbal, cp |-> r.cp, gov |-> r.gov,
+   pseq |-> r.pseq, props |-> r.props, esc |-> r.esc]
 
 ObsOf(r) == [inexact |-> r.inexact, invBroken |-> r.invBroken]
 
@@ -92,7 +94,22 @@ Clauses ==
    C13_QueueSound |-> C13_QueueSound(st),
    C13_QueueComplete |-> C13_QueueComplete(st, gh),
    C13_OnceOnTime |-> C13_OnceOnTime(pre, ev, st, gh),
-   C13_NoHalt |-> C13_NoHalt(ev)]
+   C13_NoHalt |-> C13_NoHalt(ev),
+   \* diagnostic clauses (governance-funded pools, AdjustPool corners)
+   X05_EscrowConservation |-> X05_EscrowConservation(st),
+   X05_DepositsBacked |-> X05_DepositsBacked(st),
+   X05_SupplyClosed |-> X05_SupplyClosed(st),
+   X05_CommunityPool |-> X05_CommunityPool(pre, ev, st),
+   X05_ProposerFrame |-> X05_ProposerFrame(pre, ev, st),
+   X06_ProposalRecorded |-> X06_ProposalRecorded(pre, ev, st),
+   X06_GovPool |-> X06_GovPool(pre, ev, st),
+   X06_VoteDecides |-> X06_VoteDecides(pre, ev, st),
+   X06_OneOutcome |-> X06_OneOutcomeStep(pre, ev, st, gh),
+   X06_CPNoPanic |-> X06_CPNoPanic(ev),
+   X06_AdjustNoPanic |-> X06_AdjustNoPanic(ev),
+   X06_AdjustGuard |-> X06_AdjustGuard(pre, ev, st),
+   X12_Farm_Escrow |-> X12_Farm_Escrow(st),
+   X12_Farm_RoundTrip |-> X12_Farm_RoundTrip(pre, ev, st)]
 
 Failing == IF ev.name = "Init" \/ ev.halt
            THEN (IF ev.halt THEN {"C13_NoHalt"} ELSE {})
@@ -104,7 +121,11 @@ Monitor == Failing = {} \/ PrintT(<<"CLAUSE-FAIL", l - 1, Failing, Apply(pre, ev
 (* antecedent counters (vacuity): which clauses were exercised non-trivially *)
 Exercised ==
   {c \in {"unstake_ok", "unstake_rej", "stake_ok", "harvest_ok", "refund", "release",
-          "adjust_ok", "destroy_ok", "create_ok", "reject", "payout"} :
+          "adjust_ok", "destroy_ok", "create_ok", "reject", "payout",
+          "adjust_rej", "adjust_expired", "adjust_stranger", "adjust_lastblock",
+          "cp_create_ok", "cp_create_rej", "cp_unwired", "cp_deposit", "cp_vote", "cp_cancel",
+          "cp_pass", "cp_back", "cp_dropped", "cp_stake", "cp_payout", "cp_pool_refund",
+          "cp_two_pending", "reimport", "reimport_pending", "reimport_pools"} :
      CASE c = "unstake_ok" -> ev.name = "Unstake" /\ ev.ok
        [] c = "unstake_rej" -> ev.name = "Unstake" /\ ~ev.ok
        [] c = "stake_ok" -> ev.name = "Stake" /\ ev.ok
@@ -114,6 +135,31 @@ Exercised ==
        [] c = "create_ok" -> ev.name = "CreatePool" /\ ev.ok
        [] c = "reject" -> ~ev.ok
        [] c = "payout" -> ev.reward # <<>>
+       [] c = "adjust_rej" -> ev.name = "AdjustPool" /\ ~ev.ok
+       [] c = "adjust_expired" -> ev.name = "AdjustPool" /\ ev.pool \in DOMAIN pre.pools
+                                  /\ Expired(pre, ev.pool)
+       [] c = "adjust_stranger" -> ev.name = "AdjustPool" /\ ev.pool \in DOMAIN pre.pools
+                                   /\ pre.pools[ev.pool].creator # ev.who
+       [] c = "adjust_lastblock" -> ev.name = "AdjustPool" /\ ev.ok /\ pre.pools[ev.pool].end = pre.h
+       [] c = "cp_create_ok" -> ev.name = "CreatePoolCP" /\ ev.ok
+       [] c = "cp_create_rej" -> ev.name = "CreatePoolCP" /\ ~ev.ok /\ ~ev.panic
+       [] c = "cp_unwired" -> ev.name = "CreatePoolCP" /\ ev.panic
+       [] c = "cp_deposit" -> ev.name = "Deposit" /\ ev.ok
+       [] c = "cp_vote" -> ev.name = "Vote" /\ ev.ok
+       [] c = "cp_cancel" -> ev.name = "CancelProposal" /\ ev.ok
+       [] c = "cp_pass" -> ev.name # "Init" /\ PassedIn(pre, ev, st) # {}
+       [] c = "cp_back" -> ev.name # "Init" /\ EscBackIn(pre, ev, st) # {}
+       [] c = "cp_dropped" -> ev.name = "EndBlock" /\ \E i \in DOMAIN pre.props :
+                                pre.props[i].status = "deposit" /\ i \notin DOMAIN st.props
+       [] c = "cp_stake" -> ev.name = "Stake" /\ ev.ok /\ pre.pools[ev.pool].creator = FEEP
+       [] c = "cp_payout" -> ev.name \in FarmerOps /\ ev.ok /\ ev.reward # <<>>
+                             /\ pre.pools[ev.pool].creator = FEEP
+       [] c = "cp_pool_refund" -> ev.name # "Init" /\ \E p \in RefundedIn(pre, ev, st) :
+                                    pre.pools[p].creator = FEEP
+       [] c = "cp_two_pending" -> Cardinality(DOMAIN st.esc) >= 2
+       [] c = "reimport" -> ev.name = "Reimport" /\ ev.ok
+       [] c = "reimport_pending" -> ev.name = "Reimport" /\ ev.ok /\ DOMAIN pre.esc # {}
+       [] c = "reimport_pools" -> ev.name = "Reimport" /\ ev.ok /\ pre.queue # {}
        [] c = "refund" -> ev.name # "Init" /\ RefundedIn(pre, ev, st) # {}
        [] c = "release" -> ev.name # "Init" /\ \E p \in DOMAIN pre.pools :
                               \E d \in DOMAIN pre.pools[p].rules : RateDue(pre, st, p, d) > 0}
